@@ -74,6 +74,13 @@ def run_case(case):
     if aff is None:
         return [dict(kind='scene', exc='predict:' + exc, fp=fp, key=key)]
     aff_kft = np.transpose(aff, (1, 0, 2))
+    if (case['seed'] // 2) % 2:
+        # the aligner object has served another utterance of the same size before (one aligner per separation system)
+        field0 = np.stack([rng.permutation(K) for _ in range(F)])
+        other = np.stack([onehot[f][field0[f]] for f in range(F)])
+        other = np.transpose(0.8 * other + 0.2 / K, (1, 0, 2))
+        call(pa.calculate_mapping, np.ascontiguousarray(other))
+        fp += ';aligner_reused'
     mapping, exc = call(pa.calculate_mapping, aff_kft)
     if mapping is None:
         return [dict(kind='scene', exc='dhtv:' + exc, fp=fp, key=key)]
@@ -97,14 +104,19 @@ def run_case(case):
     for name in case['names']:
         contrib = np.zeros((K, K, F, T), complex)
         exc = ''
+        # one beamformer per speaker: all vectors are designed first, then applied
+        W = []
         for kt in range(K):
             target = psd[:, kt]
             interf = psd.sum(1) - target
             w, exc = call(get_bf_vector, name, target, interf)
             if w is None:
                 break
-            for ks in range(K):
-                contrib[ks, kt] = apply_beamforming_vector(w, images[ks])
+            W.append(w)
+        if len(W) == K:
+            for kt in range(K):
+                for ks in range(K):
+                    contrib[ks, kt] = apply_beamforming_vector(W[kt], images[ks])
         rec = dict(kind='beam', name=name, exc=exc, K=K, fp=fp + f';bf={name}', key=key + ':' + name)
         if not exc:
             cs = contrib[:, :, sub].reshape(K, K, -1)
